@@ -282,7 +282,7 @@ class ProgGen:
         if bdepth > 0:
             kinds += ["if"] * f.if_weight
         if f.storage:
-            kinds += ["sstore", "sstore", "sload_obs"]
+            kinds += ["sstore", "sstore", "sload_obs", "rmw"]
         if f.transient:
             kinds += ["tstore"]
         if f.logs:
@@ -309,6 +309,13 @@ class ProgGen:
             self.expr(d, lbl + "v")
             self.slot_expr(lbl + "l")
             a.op("SSTORE")
+        elif k == "rmw":
+            # read-modify-write of one location: the new value depends on what the location held
+            slot_c = ch.pick(4, lbl + ".rs")
+            t = f.transient and ch.chance(0.25, lbl + ".rt")
+            a.push(slot_c).op("TLOAD" if t else "SLOAD")
+            a.push(ch.choose([1, 2, 0x10], lbl + ".rc")).op("ADD")
+            a.push(slot_c).op("TSTORE" if t else "SSTORE")
         elif k == "tstore":
             self.expr(d - 1, lbl + "v")
             self.slot_expr(lbl + "l")
@@ -388,6 +395,30 @@ class ProgGen:
         size = ch.choose([0x20, 0, 1, 0x40, 33], lbl + ".cs")
         src = ch.choose([0, 4, 0x20, 0x1F, 200], lbl + ".co")
         dst = ch.choose([0x80, 0xA0, 0x90], lbl + ".cd")
+        if k != "MCOPY" and ch.chance(0.4, lbl + ".edge"):
+            # a window placed relative to the end of the source (straddling it, ending exactly on it, or
+            # starting behind it) copied over memory that was non-zero before
+            back = ch.choose([4, 0, 1, 0x1F, 0x20, 0x21, 0x40], lbl + ".eb")
+            if ch.chance(0.7, lbl + ".pre"):
+                self.input_word(lbl + "p")
+                a.push(dst).op("MSTORE")
+            xa = ch.choose(self.world.known_addrs() + [0xDEAD], lbl + ".exa")
+            a.push(size)
+            a.push(back)
+            if k == "CALLDATACOPY":
+                a.op("CALLDATASIZE")
+            elif k == "CODECOPY":
+                a.op("CODESIZE")
+            elif k == "RETURNDATACOPY":
+                a.op("RETURNDATASIZE")
+            else:
+                a.push(xa).op("EXTCODESIZE")
+            a.op("SUB")  # size_of_source - back (wraps when the source is shorter: a huge offset)
+            a.push(dst)
+            if k == "EXTCODECOPY":
+                a.push(xa)
+            a.op(k)
+            return
         if k == "MCOPY":
             a.push(size).push(ch.choose([0x80, 0x90, 0xA0, 0x60], lbl + ".ms")).push(dst).op("MCOPY")
         elif k == "RETURNDATACOPY":
